@@ -471,6 +471,12 @@ func splitPeriod(mpd *m.MPD, a *asset, cfg *ResponseConfig, wTimes wrapTimes) er
 	startPeriodNr := wTimes.startTimeMS / (periodDur * 1000)
 	endPeriodNr := wTimes.nowMS / (periodDur * 1000)
 	inPeriod := mpd.Periods[0]
+	if cfg.liveMPDType() != segmentNumber {
+		// With a large availabilityTimeOffset, a listed segment may start in a period that has not started yet
+		if lastStartS, ok := lastTimelineSegStartS(inPeriod); ok && lastStartS/periodDur > endPeriodNr {
+			endPeriodNr = lastStartS / periodDur
+		}
+	}
 	nrPeriods := endPeriodNr - startPeriodNr + 1
 	periods := make([]*m.Period, 0, nrPeriods)
 	for pNr := startPeriodNr; pNr <= endPeriodNr; pNr++ {
@@ -520,6 +526,29 @@ func splitPeriod(mpd *m.MPD, a *asset, cfg *ResponseConfig, wTimes wrapTimes) er
 		mpd.AppendPeriod(p)
 	}
 	return nil
+}
+
+// lastTimelineSegStartS returns the start time in whole seconds (rounded down) of the last segment
+// in the SegmentTimeline of the first AdaptationSet that has one.
+func lastTimelineSegStartS(p *m.Period) (int, bool) {
+	for _, as := range p.AdaptationSets {
+		st := as.SegmentTemplate
+		if st == nil || st.SegmentTimeline == nil || len(st.SegmentTimeline.S) == 0 {
+			continue
+		}
+		var t uint64
+		for i, e := range st.SegmentTimeline.S {
+			if e.T != nil {
+				t = *e.T
+			}
+			if i == len(st.SegmentTimeline.S)-1 {
+				t += uint64(e.R) * e.D
+				return int(t / uint64(st.GetTimescale())), true
+			}
+			t += uint64(e.R+1) * e.D
+		}
+	}
+	return 0, false
 }
 
 func reduceS(entries []*m.S, startNr *uint32, timescale int, periodStartS, periodEndS uint64) ([]*m.S, *uint32) {
